@@ -602,6 +602,61 @@ def truc_rule_host(ctx, crate):
                     ctx.inst('H-HOST', 'type_name::<%s> in %s feeds a message only' % (','.join(tys), owner.split('::')[-1]))
                 else:
                     ctx.add(['C18'], 'H-HOST', owner, '`%s::<%s>` is called at %s, outside the type resolver module: the host\'s own layout leaks into the definition instead of the resolver\'s answer' % (p, ','.join(tys), fmt_span(t['span'])), key='%s|%s' % (owner, p))
+    # who answers for a resolver: only HostTypeResolver's own methods may reach a host query; a provided
+    # (default) method of the trait that does would answer with the host's layout for every resolver that
+    # does not override it, and a wrapper impl (`&R`) that leaves a method out falls back on it
+    TR = 'truc::record::type_resolver::TypeResolver'
+    impls = defaultdict(dict)        # self type -> {method: body}
+    defaults = {}
+    for b in crate.bodies:
+        m = re.match(r'^<(.+) as %s>::([A-Za-z_0-9]+)$' % re.escape(TR), b.path)
+        if m:
+            impls[m.group(1)][m.group(2)] = b
+        m = re.match(r'^%s::([A-Za-z_0-9]+)$' % re.escape(TR), b.path)
+        if m:
+            defaults[m.group(1)] = b
+
+    def reaches_host(b0, depth=0, seen=None, layout_only=False):
+        seen = seen if seen is not None else set()
+        if b0.path in seen or depth > 4:
+            return None
+        seen.add(b0.path)
+        for _, tm in b0.calls():
+            cp = callee_path(tm)
+            if cp in HOST_QUERIES and not (cp.startswith('core::any::type_name') and (layout_only or only_formatted(b0, tm))) and callee_ty_args(tm) != ['()']:
+                return '%s at %s' % (cp, fmt_span(tm['span']))
+            inner = crate.lookup(cp) if cp else None
+            if inner is not None and inner is not b0:
+                r = reaches_host(inner, depth + 1, seen, layout_only)
+                if r:
+                    return r
+        for cl in crate.closures_of(b0.path):
+            r = reaches_host(cl, depth + 1, seen, layout_only)
+            if r:
+                return r
+        return None
+    methods = set(defaults)
+    for ms in impls.values():
+        methods |= set(ms)
+    for name, db in sorted(defaults.items()):
+        # (a provided method that answers for the host is the answer of every resolver that keeps it: allowed;
+        # what matters is that wrappers do not fall back on it — below)
+        r = reaches_host(db, layout_only=True)
+        ctx.inst('H-HOST', 'provided method TypeResolver::%s %s' % (name, 'answers with the host layout (%s)' % r if r else 'does not reach a host query'))
+    for ty, ms in sorted(impls.items()):
+        if ty.startswith('&') or ty.startswith('alloc::boxed::Box<') or ty.startswith('alloc::rc::Rc<') or ty.startswith('alloc::sync::Arc<'):
+            for name in sorted(methods):
+                fb = ms.get(name)
+                fwd = fb is not None and any((callee_path(tm, resolved=False) or '') == '%s::%s' % (TR, name) for _, tm in fb.calls())
+                if not fwd:
+                    ctx.add(['C18'], 'H-HOST', '<%s as TypeResolver>' % ty, 'the wrapper resolver `%s` does not forward `%s` to the resolver it wraps (%s): it answers with the trait\'s default instead' % (ty, name, 'no such method in the impl' if fb is None else 'the body does not call it'), key='forward|%s|%s' % (ty, name))
+                else:
+                    ctx.inst('H-HOST', '<%s as TypeResolver>::%s forwards to the wrapped resolver' % (ty, name))
+        elif 'HostTypeResolver' not in ty:
+            for name, fb in sorted(ms.items()):
+                r = reaches_host(fb, layout_only=True)     # (the type's *name* is the key it looks up)
+                if r:
+                    ctx.add(['C18'], 'H-HOST', fb.path, '`%s`, which is not the host resolver, reaches a host layout query in `%s` (%s)' % (ty, name, r), key='impl-host|%s|%s' % (ty, name))
     ctx.floor(['C18'], 'H-HOST', 5)
 
 
@@ -1387,6 +1442,68 @@ def err_blocks(b):
     return out
 
 
+TRUNCATING = re.compile(r'::(take_while|skip_while|map_while|take|skip|step_by|nth|nth_back)$')
+SEARCH_ADAPTORS = ('::position', '::rposition', '::find', '::any')
+_ORD = ('PartialOrd::lt', 'PartialOrd::le', 'PartialOrd::gt', 'PartialOrd::ge', 'PartialOrd::partial_cmp', 'Ord::cmp')
+
+
+def predicate_kinds(crate, cb, depth=0):
+    """Which comparisons a predicate closure makes: a set over {'eq', 'ne', 'ord', 'not'} ('not' = a boolean
+    negation somewhere).  Calls of other closures / private helpers of the crate are followed (bounded)."""
+    kinds = set()
+    for _, _, st in cb.statements():
+        if st['k'] != 'assign':
+            continue
+        rv = st['rv']
+        if rv['k'] == 'bin':
+            if rv['op'] == 'Eq':
+                kinds.add('eq')
+            elif rv['op'] == 'Ne':
+                kinds.add('ne')
+            elif rv['op'] in ('Lt', 'Le', 'Gt', 'Ge', 'Cmp'):
+                kinds.add('ord')
+        elif rv['k'] == 'un' and rv['op'] == 'Not' and (cb.local_ty(st['place']['l']) == 'bool' if not st['place']['p'] else False):
+            kinds.add('not')
+    for _, tm in cb.calls():
+        dp = (callee_decl_path(tm) or '') + ' ' + (callee_path(tm) or '')
+        if 'PartialEq::eq' in dp or 'PartialEq>::eq' in dp:
+            kinds.add('eq')
+        elif 'PartialEq::ne' in dp or 'PartialEq>::ne' in dp:
+            kinds.add('ne')
+        elif any(o in dp for o in _ORD) or any(o.replace('::', '>::') in dp for o in _ORD):
+            kinds.add('ord')
+        elif depth < 2:
+            inner = crate.lookup(callee_path(tm)) if callee_path(tm) else None
+            if inner is not None and inner.crate_name == cb.crate_name if hasattr(cb, 'crate_name') else False:
+                kinds |= predicate_kinds(crate, inner, depth + 1)
+    return kinds
+
+
+def search_predicates(ctx, crate, b, rule, props, what):
+    """Every closure handed to an iterator search (`position`, `rposition`, `find`, `any`) in `b` must be a
+    plain equality test: membership of an id / a name is decided by `==`, never by an ordering or a negation."""
+    defs = local_defs(b)
+    n = 0
+    for bb, t in b.calls():
+        cp = (callee_decl_path(t) or callee_path(t) or '')
+        if not cp.endswith(SEARCH_ADAPTORS) or 'Iterator' not in cp or len(t['args']) != 2:
+            continue
+        cl = trace_value(b, defs, t['args'][1])[-1]
+        if not (cl[0] == 'rv' and cl[1]['k'] == 'aggregate' and cl[1].get('closure')):
+            continue
+        cb = crate.lookup(cl[1]['closure'])
+        if cb is None:
+            continue
+        kinds = predicate_kinds(crate, cb)
+        n += 1
+        if kinds == {'eq'}:
+            ctx.inst(rule, '%s: the predicate handed to `%s` at %s is an equality test' % (what, cp.split('::')[-1], fmt_span(t['span'])))
+        elif kinds & {'ord', 'ne', 'not'}:
+            ctx.add(list(props), rule, b.key, '%s: the predicate handed to `%s` at %s is not a plain equality test (it uses %s): another element than the one asked for can be taken for it' % (
+                what, cp.split('::')[-1], fmt_span(t['span']), ', '.join(sorted({'ord': 'an ordering comparison', 'ne': '`!=`', 'not': 'a negation', 'eq': '`==`'}[k] for k in kinds))), key='predicate|%s' % cp.split('::')[-1])
+    return n
+
+
 def truc_rule_builder(ctx, crate):
     # B-PURE: rejected requests leave the builder untouched
     for name, nerr in (('add_datum', 1), ('remove_datum', 3)):
@@ -1677,6 +1794,11 @@ def truc_rule_builder(ctx, crate):
                         ctx.inst('B-GUARD-RM', 'data_to_remove.push only when the id is in the last variant (edge bb%d->bb%d)' % g2)
         if n < 2:
             ctx.add(['C12'], 'B-GUARD-RM', b.key, 'remove_datum performs %d list updates: it needs one that records a removal and one that withdraws a pending addition' % n, key='count')
+    # the searches themselves: by equality
+    for fn, what, rule in ((GB + 'remove_datum', 'remove_datum', 'B-GUARD-RM'), (GB + 'get_current_datum_definition_by_name', 'duplicate-name lookup', 'B-GUARD-DUP'), (GB + 'add_datum', 'add_datum', 'B-GUARD-DUP')):
+        fb = crate.body(fn)
+        if fb is not None:
+            search_predicates(ctx, crate, fb, rule, ['C12'], what)
     ctx.floor(['C12'], 'B-GUARD-RM', 3)
 
     # B-NOOP
@@ -1859,48 +1981,62 @@ def truc_rule_builder(ctx, crate):
 
 # -- C20: replaying a definition ----------------------------------------------
 
-def sources(b, defs, op, depth=0, seen=None):
+def sources(b, defs, op, depth=0, seen=None, sel=None, selmap=None):
     """All terminal sources of an operand, following moves, several definitions and
-    tuple-field projections of locally built tuples. Returns a list of terminals as in trace_value."""
+    tuple-field projections of locally built tuples. Returns a list of terminals as in trace_value.
+    With `selmap` (a dict), records for each terminal (by identity of its payload) the blocks of the
+    outermost definition that *selected* it among alternatives (its own block when there was no choice)."""
     seen = seen if seen is not None else set()
     out = []
     st = trace_value(b, defs, op)
     t = st[-1]
+
+    def note(term, sel_):
+        if selmap is not None and len(term) > 1 and isinstance(term[1], (dict, list)):
+            if sel_ is None and term[0] == 'call':
+                own = [bb_ for bb_, blk_ in enumerate(b.blocks) if blk_['term'] is term[1]]
+                sel_ = own[0] if own else None
+            selmap.setdefault(id(term[1]), set()).add(sel_)
+        return term
     if depth > 10:
-        return [t]
+        return [note(t, sel)]
     if t[0] == 'multi':
         l = t[1]
         if l in seen:
             return []
         seen.add(l)
         if not defs.get(l):
-            return [t]      # (a local the caller asked not to look through)
+            return [note(t, sel)]      # (a local the caller asked not to look through)
+        live = [d for d in defs.get(l, []) if not b.blocks[d[1]]['cleanup']]
         for d in defs.get(l, []):
+            s2 = sel if sel is not None else (d[1] if len(live) > 1 else None)
             if d[0] == 'call':
-                out.append(('call', d[2]))
+                out.append(note(('call', d[2]), s2))
             else:
                 rv = d[3]['rv']
                 if rv['k'] == 'use':
-                    out += sources(b, defs, rv['op'], depth + 1, seen)
+                    out += sources(b, defs, rv['op'], depth + 1, seen, s2, selmap)
                 else:
-                    out.append(('rv', rv))
+                    out.append(note(('rv', rv), s2))
         return out
     if t[0] == 'place':
         pl = t[1]
         if len(pl['p']) == 1 and isinstance(pl['p'][0], dict) and 'f' in pl['p'][0] and pl['p'][0].get('tuple'):
             k = pl['p'][0]['f']
+            live = [d for d in defs.get(pl['l'], []) if not (d[0] == 'stmt' and b.blocks[d[1]]['cleanup'])]
             for d in defs.get(pl['l'], []):
                 if d[0] == 'stmt' and b.blocks[d[1]]['cleanup']:
                     continue
+                s2 = sel if sel is not None else (d[1] if len(live) > 1 else None)
                 if d[0] == 'stmt' and d[3]['rv']['k'] == 'aggregate' and d[3]['rv']['ak'] == 'tuple':
-                    out += sources(b, defs, d[3]['rv']['fields'][k], depth + 1, seen)
+                    out += sources(b, defs, d[3]['rv']['fields'][k], depth + 1, seen, s2, selmap)
                 elif d[0] == 'stmt' and d[3]['rv']['k'] == 'use' and op_local(d[3]['rv']['op']) is not None:
                     # the tuple was built elsewhere and moved here
-                    out += sources(b, defs, {'copy': {'l': op_local(d[3]['rv']['op']), 'p': pl['p'], 'ty': None}}, depth + 1, seen)
+                    out += sources(b, defs, {'copy': {'l': op_local(d[3]['rv']['op']), 'p': pl['p'], 'ty': None}}, depth + 1, seen, s2, selmap)
                 else:
-                    out.append(('opaque-tuple', pl))
+                    out.append(note(('opaque-tuple', pl), s2))
             return out
-    return [t]
+    return [note(t, sel)]
 
 
 def truc_rule_replay(ctx, crate):
@@ -2220,6 +2356,8 @@ def truc_rule_replay(ctx, crate):
         base = data_of(cur)
         return (base, against, neg)
 
+    first_only = []      # (what, [block]) of the alternatives meant for the first variant only
+
     def kind_of(op):
         outs = set()
         # a vector that was moved under another name and then filtered in place under that name
@@ -2237,7 +2375,8 @@ def truc_rule_replay(ctx, crate):
         defs_stop = dict(defs)
         for rl in retained:
             defs_stop[rl] = []
-        for s in sources(b, defs_stop, op):
+        selmap = {}
+        for s in sources(b, defs_stop, op, selmap=selmap):
             if s[0] == 'multi' and s[1] in retained:
                 outs.add(retained[s[1]])
             elif s[0] == 'call' and not s[1]['dest']['p'] and s[1]['dest']['l'] in retained:
@@ -2248,8 +2387,10 @@ def truc_rule_replay(ctx, crate):
                     outs.add(fc)
                 else:
                     outs.add(('all', data_of({'copy': {'l': s[1]['dest']['l'], 'p': [], 'ty': None}})))
+                    first_only.append(('everything', sorted(x for x in selmap.get(id(s[1]), ()) if x is not None)))
             elif s[0] == 'call' and (callee_path(s[1]) or '').startswith('alloc::vec::Vec::<T>::new'):
                 outs.add(('empty',))
+                first_only.append(('nothing', sorted(x for x in selmap.get(id(s[1]), ()) if x is not None)))
             elif s[0] == 'call' and (callee_path(s[1], resolved=False) or '').endswith('Iterator::filter'):
                 # a lazily filtered iterator handed to the loop as it is
                 fc = filtered_collect(s[1], start={'move': {'l': s[1]['dest']['l'], 'p': [], 'ty': None}})
@@ -2292,6 +2433,42 @@ def truc_rule_replay(ctx, crate):
         ctx.add(['C20'], 'V-DELTA', b.key, 'the data replayed as removals are %s; expected (previous variant minus current variant) or nothing for the first variant' % sorted(map(str, got_rm)), key='delta-rm')
     else:
         ctx.inst('V-DELTA', 'removals = old \\ new (first variant: none)')
+    # "everything" / "nothing" are for the first variant only: the blocks that produce them are reached only
+    # through an edge that learnt there is no previous variant
+    if not carried and first_only:
+        none_edges = []
+        for sb in range(len(b.blocks)):
+            tm = b.blocks[sb]['term']
+            if tm['k'] != 'switch':
+                continue
+            si = switch_info(b, defs, sb)
+            if not si:
+                continue
+            if si[0] == 'discr':
+                pl = si[1][1] if si[1][0] == 'place' else None
+                dsrc = trace_value(b, defs, tm['d'])[-1]
+                dty = (dsrc[1]['place'].get('ty') or '') if dsrc[0] == 'rv' and dsrc[1]['k'] == 'discr' else ''
+                if not dty and dsrc[0] == 'rv' and dsrc[1]['k'] == 'discr' and not dsrc[1]['place']['p']:
+                    dty = b.local_ty(dsrc[1]['place']['l']) or ''
+                if 'Option<' in dty and 'RecordVariant' in dty:
+                    tg = dict(tm['targets'])
+                    none_edges.append((sb, tg[0] if 0 in tg else tm['otherwise']))
+            elif si[0] == 'val' and si[1][0] == 'call' and callee_path(si[1][1]) in ('core::option::Option::<T>::is_none', 'core::option::Option::<T>::is_some'):
+                a0 = op_place(si[1][1]['args'][0])
+                aty = ''
+                r0 = trace_value(b, defs, si[1][1]['args'][0])[-1]
+                if r0[0] == 'ref':
+                    aty = r0[2].get('ty') or (b.local_ty(r0[2]['l']) if not r0[2]['p'] else '') or ''
+                if 'Option<' in aty and 'RecordVariant' in aty:
+                    none_truth = callee_path(si[1][1]).endswith('is_none') != si[2]
+                    none_edges.append((sb, edge_for(b, sb, none_truth)))
+        reach_some = b.reachable(head, unwind=False, removed_edges=none_edges)
+        bad = [(w, bbs) for w, bbs in first_only if any(x in reach_some for x in bbs)]
+        if bad:
+            ctx.add(['C20'], 'V-DELTA', b.key, 'replaying %s of a variant\'s data (bb%s) is not restricted to the first variant: it can be reached although a previous variant exists, so that variant\'s removals / the data it kept are mishandled' % (
+                ' / '.join(sorted({w for w, _ in bad})), ','.join(str(x) for _, bbs in bad for x in bbs)), key='delta-first-only')
+        else:
+            ctx.inst('V-DELTA', '"everything added / nothing removed" only on the no-previous-variant edge (%d edges, %d sites)' % (len(none_edges), len(first_only)))
     # prev_variant is updated to the loop item at the end of each iteration
     prev_ok = False
     for bb, si, st in b.statements():
@@ -2402,6 +2579,22 @@ def truc_rule_current(ctx, crate):
             for bb, where in sites:
                 if not (dom.get(bb, set()) & add_blocks):
                     ctx.add(['C12'], 'B-CURRENT', x.key, '%s can answer (possibly "no such datum") at %s on a path that never consulted the pending additions: a name that was removed and added again is reported free' % (name, where), key='%s|early-answer' % name)
+    # the bookkeeping lists are sets in request order, not sorted sequences: every element counts.  An
+    # adaptor that stops at / skips to the first element failing a test, or keeps a prefix, drops data
+    # that are still there (`take_while` where `filter` is meant)
+    trunc = TRUNCATING
+    n_scanned = 0
+    for x in crate.bodies:
+        mod = x.module or ''
+        if not (mod == 'truc::record::definition::builder::generic' or x.path.startswith(GB)):
+            continue
+        n_scanned += 1
+        for bb, tm in x.calls():
+            dp = callee_decl_path(tm) or callee_path(tm) or ''
+            m = trunc.search(dp)
+            if m and 'Iterator' in dp:
+                ctx.add(['C12', 'C13'], 'B-CURRENT', x.key, '`%s` at %s cuts the walk over the builder\'s bookkeeping short: data after the first element that fails the test (or beyond the prefix) are ignored although they are still part of the variant' % (m.group(1), fmt_span(tm['span'])), key='truncating|%s|%s' % (x.path, m.group(1)))
+    ctx.inst('B-CURRENT', 'no truncating iterator adaptor in the %d bodies of the generic builder' % n_scanned)
     ctx.floor(['C12'], 'B-CURRENT', 3)
 
 
